@@ -9,6 +9,7 @@ import (
 	"bytes"
 	"errors"
 	"fmt"
+	"strings"
 	"sync"
 	"time"
 
@@ -77,15 +78,52 @@ func runKeepaliveRe(in *c18In, attempt int) (Sx, *c18Obs) {
 	var mu sync.Mutex
 	var reports []stamp
 	discCh := make(chan struct{}, 16)
-	client, err := xmpp.NewClient(cfg, xmpp.NewRouter(), func(error) {
+	var serrAt time.Time
+	client, err := xmpp.NewClient(cfg, xmpp.NewRouter(), func(e error) {
 		mu.Lock()
-		reports = append(reports, stamp{time.Now(), false})
+		at := time.Now()
+		if e != nil && strings.HasPrefix(e.Error(), "stream error") && !serrAt.IsZero() {
+			at = serrAt // reported after the event handler returned, but it is about the session the stream error ended
+		}
+		reports = append(reports, stamp{at, false})
 		mu.Unlock()
 	})
 	if err != nil {
 		return setupErr("newclient: " + err.Error())
 	}
+	ro := &c18ReObs{}
+	est := []time.Time{} // when each session was established
+	srvConn := []int{0}  // server connection of each established session
+	nconn := 1
+	resumed := make(chan struct{}, 1)
 	client.SetHandler(func(e xmpp.Event) error {
+		if xmpp.VerifEventState(e) == xmpp.StateStreamError && in.Variant == "serrmgr" {
+			mu.Lock()
+			first := serrAt.IsZero()
+			if first {
+				serrAt = time.Now()
+			}
+			mu.Unlock()
+			if first {
+				// what a StreamManager does from inside the handler: disconnect, back off, resume; it
+				// returns only when the new session is up
+				client.Disconnect()
+				time.Sleep(4 * iv)
+				err := client.Resume()
+				mu.Lock()
+				idx := nconn
+				nconn++
+				if err == nil {
+					ro.Attempts = append(ro.Attempts, 0)
+					est = append(est, time.Now())
+					srvConn = append(srvConn, idx)
+				} else {
+					ro.Attempts = append(ro.Attempts, 1)
+				}
+				mu.Unlock()
+				resumed <- struct{}{}
+			}
+		}
 		if xmpp.VerifEventState(e) == xmpp.StateDisconnected {
 			mu.Lock()
 			reports = append(reports, stamp{time.Now(), true})
@@ -108,17 +146,17 @@ func runKeepaliveRe(in *c18In, attempt int) (Sx, *c18Obs) {
 	rec := &kaRec{}
 	tr := &kaReal{Transport: xmpp.VerifTransport(client), rec: rec, slow: true, attr: true}
 	xmpp.VerifSetTransport(client, tr)
-	ro := &c18ReObs{}
 	start := time.Now()
 	if err := client.Connect(); err != nil {
 		o := &c18Obs{Attempts: attempt, SetupErr: "connect: " + err.Error(), CloseUs: -1, ReturnUs: -1, ConnectErr: true, Re: ro}
 		return L(L(Z(-2), SBytes("connect"))), o
 	}
+	mu.Lock()
 	ro.Attempts = append(ro.Attempts, 0)
-	est := []time.Time{time.Now()} // when each session was established
-	var ends []time.Time           // when each session was seen to be over
-	srvConn := []int{0}            // server connection of each established session
-	nconn := 1
+	est = append(est, time.Now())
+	mu.Unlock()
+	var ends []time.Time // when each session was seen to be over
+	endsExact := false
 	time.Sleep(time.Duration(in.Ticks) * iv)
 
 	// session 1 ends
@@ -131,16 +169,34 @@ func runKeepaliveRe(in *c18In, attempt int) (Sx, *c18Obs) {
 		srv.push(0, sItem{T: "serr", Cond: "system-shutdown"}.xml())
 		time.Sleep(5 * time.Millisecond) // the client reads the stream error, its receiver enters Close (1 s)
 	}
-	srv.drop(0)
-	select {
-	case <-discCh:
-	case <-time.After(4 * time.Second):
+	var failedConns []int
+	if in.Variant == "serrmgr" {
+		// the session ends by a stream error; the handler above reconnects before it returns
+		srv.push(0, sItem{T: "serr", Cond: "system-shutdown"}.xml())
+		select {
+		case <-resumed:
+		case <-time.After(6 * time.Second):
+		}
+		mu.Lock()
+		at := serrAt
+		mu.Unlock()
+		if at.IsZero() {
+			at = time.Now()
+		}
+		// over when the stream error was received (+ half an interval for a ping already under way)
+		ends = append(ends, at.Add(iv/2))
+		endsExact = true
+	} else {
+		srv.drop(0)
+		select {
+		case <-discCh:
+		case <-time.After(4 * time.Second):
+		}
+		ends = append(ends, time.Now())
 	}
-	ends = append(ends, time.Now())
 
 	// the application reconnects on the same object until Resume reports success
-	var failedConns []int
-	for try := 0; try < 6; try++ {
+	for try := 0; try < 6 && in.Variant != "serrmgr"; try++ {
 		err := client.Resume()
 		idx := nconn
 		nconn++
@@ -220,7 +276,7 @@ func runKeepaliveRe(in *c18In, attempt int) (Sx, *c18Obs) {
 		over := ends[len(ends)-1]
 		if k < len(ends) {
 			over = ends[k]
-			if k < len(ends)-1 {
+			if k < len(ends)-1 && !endsExact {
 				over = over.Add(40 * time.Millisecond)
 			}
 		}
@@ -317,6 +373,8 @@ func reInputSx(in *c18In, o *c18Obs) Sx {
 				end = 2 // ended by the harness: Disconnect, the server answers with its closing tag
 			case in.Variant == "staleclose":
 				end = 3 // stream error, then the read fails
+			case in.Variant == "serrmgr":
+				end = 4 // stream error; the handler reconnected, the loop returns without a Disconnected event
 			}
 			k++
 		}
@@ -361,7 +419,11 @@ func reOracle(in *c18In, obs Sx) (string, string) {
 	}
 	for k, lp := range ro.Loops {
 		if lp.Late > 0 {
-			return fmt.Sprintf("keep-alive loop %d pinged %d times after its session was over", k+1, lp.Late), "ping-after-session-end"
+			when := "after its session was over"
+			if in.Variant == "serrmgr" && k == 0 {
+				when = "after the server's stream error had ended its session, while the StreamError handler was disconnecting, backing off and resuming (any connection of the client counted)"
+			}
+			return fmt.Sprintf("keep-alive loop %d pinged %d times %s", k+1, lp.Late, when), "ping-after-session-end"
 		}
 	}
 	if last := ro.Loops[len(ro.Loops)-1]; last.NSucc == 0 && ro.LastUpUs/iv >= 6 {
